@@ -2,6 +2,7 @@ package c15
 
 import (
 	"fmt"
+	"math"
 	"runtime"
 	"sort"
 	"strings"
@@ -82,8 +83,12 @@ func genConc(rng *mon.RNG) concPlan {
 		p.hot = append([]string{""}, p.hot[1:]...)
 	}
 	p.interval = []time.Duration{grid, grid, 2 * grid, 3 * grid}[rng.Intn(4)]
-	p.maxTTL = int64(rng.PickInt(0, 0, 2, 3))
-	p.initSize = int32(rng.PickInt(0, 0, 1, 4))
+	p.maxTTL = int64(rng.PickInt(0, 0, 2, 3, 2, 3, -1, math.MinInt64))
+	p.initSize = int32(rng.PickInt(0, 0, 1, 4, 1, 4, -1, math.MinInt32, 1<<15))
+	if rng.Chance(1, 10) {
+		// <= 0: the default of 150 s, no tick inside this history
+		p.interval = time.Duration(rng.PickInt(0, -int(grid)))
+	}
 	p.withReset = rng.Chance(1, 3)
 	p.yield = rng.PickInt(0, 2, 4)
 	for range p.cold {
@@ -287,6 +292,9 @@ func (h *hist) judgeHit(g *crec) {
 		return
 	}
 	rec.Count(h.pre+".get.hit", 1)
+	if h.maxTTL < 0 {
+		rec.Count("options.maxttl_negative.conc_hits", 1)
+	}
 	if s.ttl >= 1<<31 {
 		rec.Count(h.pre+".huge_ttl.hits", 1)
 	}
@@ -389,7 +397,7 @@ func (h *hist) judgeMiss(g *crec) {
 		shape = "untouched-key"
 	}
 	for _, s := range liveSets {
-		if eff := s.ttl; (h.maxTTL == 0 || h.maxTTL > maxDurSec) && eff > maxDurSec {
+		if eff := s.ttl; (h.maxTTL <= 0 || h.maxTTL > maxDurSec) && eff > maxDurSec {
 			shape += "/ttl-beyond-duration"
 			break
 		}
@@ -632,8 +640,9 @@ func runConc(t *testing.T, idx int, pl concPlan) {
 		for _, l := range logs {
 			h.recs = append(h.recs, l...)
 		}
-		for k := time.Duration(1); k*pl.interval <= stopT; k++ {
-			h.recs = append(h.recs, &crec{g: -1, kind: "tick", tick: true, t: k * pl.interval, call: 1 << 60})
+		countOptionShapes(pl.maxTTL, pl.interval, pl.initSize)
+		for k := time.Duration(1); k*effInterval(pl.interval) <= stopT; k++ {
+			h.recs = append(h.recs, &crec{g: -1, kind: "tick", tick: true, t: k * effInterval(pl.interval), call: 1 << 60})
 		}
 		sort.SliceStable(h.recs, func(i, j int) bool {
 			a, b := h.recs[i], h.recs[j]
